@@ -363,6 +363,11 @@ func runC03(c *Ctx) {
 	if lines := c.Func("length", "Lines"); lines != nil {
 		importPremises(c, "R03.3", "cell-width premise: ", "the column is sized from this measure", nil, func() { c18LongestAll(c, lines, []string{"Cells"}) })
 		importPremises(c, "R03.3", "cell-width premise: ", "the column is sized from the width the cell records", nil, func() { c18WidthStores(c, "R18.2") })
+		// ... and what is printed for a cell is what was measured: the lines the layout pass measured are the cell's
+		// own lines (Cell.Lines is length.Lines of the text) and the measuring callback records them on every render
+		importPremises(c, "R03.3", "measured-is-printed premise ", "a line printed from a stale or differently split text does not fit the column sized for the current one", func(o *Ob) bool {
+			return (o.Rule == "R18.2" && strings.Contains(o.Construct, "length.Lines")) || (o.Rule == "R04.2" && (strings.Contains(o.Construct, "lines were recorded") || strings.Contains(o.Construct, "record i of a cell")))
+		}, func() { runC18(c); runC04(c) })
 	}
 
 	// ---- R03.4
@@ -785,6 +790,52 @@ func runC04(c *Ctx) {
 			okBlank = fresh && n > 0
 		}
 		r.Check("R04.2", FuncName(rtl), "a missing line is a blank slot", rtl.Pos(), okBlank, "")
+		// the slots a short row does not reach are blank too: every line's slice is made afresh (zeroed) for that
+		// line, unconditionally - not re-used from an earlier row or render
+		{
+			nline, stale := 0, ""
+			eachInstr(rtl, func(in ssa.Instruction) {
+				st, isSt := in.(*ssa.Store)
+				if !isSt {
+					return
+				}
+				sl, isSl := st.Val.Type().Underlying().(*types.Slice)
+				if !isSl || !isNamed(sl.Elem(), pkgPath("texttable/decoration"), "WidthString") {
+					return
+				}
+				ia, isIA := st.Addr.(*ssa.IndexAddr)
+				if !isIA {
+					return
+				}
+				// only the grid that is handed back (not the per-column lists it is built from)
+				isResult := false
+				for _, ret := range returnsOf(rtl) {
+					for _, root := range sliceRoots(results(ret)[0]) {
+						for _, r2 := range sliceRoots(ia.X) {
+							if root == r2 {
+								isResult = true
+							}
+						}
+					}
+				}
+				if !isResult {
+					return
+				}
+				nline++
+				ms, isMS := p.resolve(st.Val).(*ssa.MakeSlice)
+				switch {
+				case !isMS:
+					stale = "a line's slots are " + st.Val.String() + ", not a slice made for this line"
+				case loopDepth(ms.Block()) == 0:
+					stale = "one slice is made before the loop and shared by every line"
+				case condInsideLoop(ms.Block()) || condInsideLoop(st.Block()):
+					stale = "a line's slice is made only under a condition: otherwise the slots keep what an earlier row left there"
+				}
+			})
+			if nline > 0 {
+				r.Check("R04.2", FuncName(rtl), "every line's slots start out blank (a slice made for that line, unconditionally)", rtl.Pos(), stale == "", stale)
+			}
+		}
 	}
 	// dimensionSetter: linesWidths[i] = {S: lines[i], ...} over cell.Lines()
 	var ds *ssa.Function
